@@ -274,6 +274,8 @@ class _CGMYLevyMeasure(LevyMeasure):
     def __integrate_h_to_inf_for_xx(alpha, h, u):
         """integral(exp(-ux)/pow(x, alpha), x=h...inf)"""
         uh = u * h
+        if h == 0 and alpha > 1.0:
+            return np.inf  # infinite variation: x nu(dx) is not integrable at zero
         if alpha == 1.0:
             res = scipy.special.exp1(uh)
         else:
